@@ -64,11 +64,14 @@ fn write_dovi_rpu_emdf_header(writer: &mut BitstreamIoWriter) -> Result<()> {
 }
 
 fn parse_variable_bits(reader: &mut BsIoSliceReader, n: u32) -> Result<u32> {
-    let mut value: u32 = 0;
+    let mut value: u64 = 0;
 
     loop {
         let tmp: u32 = reader.get_n(n)?;
-        value += tmp;
+        value += tmp as u64;
+
+        // The decoded value must fit 32 bits
+        ensure!(value <= u32::MAX as u64, "variable_bits value is too large");
 
         // read_more flag
         if !reader.get()? {
@@ -79,7 +82,7 @@ fn parse_variable_bits(reader: &mut BsIoSliceReader, n: u32) -> Result<u32> {
         value += 1 << n;
     }
 
-    Ok(value)
+    Ok(value as u32)
 }
 
 fn write_variable_bits(writer: &mut BitstreamIoWriter, value: u32, n: u32) -> Result<()> {
